@@ -218,21 +218,28 @@ PROPS["C13"] = dict(
 
 
 PROPS["C04"] = dict(
-    lean_targets=["Chihaya.Props.C04"],
-    props_files=["Chihaya/Props/C04.lean"],
-    facts=["memory_lock_discipline"],
+    lean_targets=["Chihaya.Props.C04", "Chihaya.Props.RedisConc"],
+    props_files=["Chihaya/Props/C04.lean", "Chihaya/Props/RedisConc.lean"],
+    facts=["memory_lock_discipline", "redis_command_groups"],
     streams=[dict(name="C04", quick=14000, thorough=400000)],
     rule="cases: (a) rounds of 2-3 goroutines each running 1-3 store operations (puts, graduations, deletes, scrapes) on ONE swarm and the same 2-3 peers against "
          "the real memory store and the real Redis store (1-3 instances on one miniredis), after a sequential prefix; the harness searches a sequential order "
          "consistent with real time, the observed results and the final membership and emits the operations in that order: the Lean model replays them and must "
-         "agree on every result, the final dump and the counters; no order found = NOT-LINEARIZABLE; (b) 8 goroutines sending announces (with options, truncations) "
+         "agree on every result, the final dump and the counters; no order found = NOT-LINEARIZABLE; (a') st.redis_sched: 2-4 threads, each with its own store "
+         "instance on one Redis, run 1-3 announce-path operations on one swarm under a scheduler that lets ONE thread perform ONE round trip at a time in a generated "
+         "order; the model (RedisConc.run, the semantics Redis_quiescent_sequential is about) executes the same schedule and must agree on the server state in the "
+         "middle of the schedule (operations in flight, counters lagging), the order and result of every operation, the final state and the exported totals; "
+         "(b) 8 goroutines sending announces (with options, truncations) "
          "through one UDP Frontend sharing its buffer and generator pools, request buffers scribbled after the call, against a logic that echoes request "
          "fields: every datagram must be the model's answer to its own request; non-trivial = every linearized round and every concurrent datagram, distinct op lines",
     trusted=STORE_TRUST + UDP_TRUST + ["fact extractor memory_lock_discipline (go/ast abstract interpretation of storage/memory/peer_store.go): every access to swarms/numSeeders/numLeechers "
              "lies inside a critical section of that shard, writes only under Lock, no return/back-edge with a lock held — the hypotheses of the linearizability theorem",
              "Go memory model, sync.RWMutex semantics and data-race freedom are trusted/argued from the bracketing fact, not proved; schedules are sampled by the Go scheduler (not enumerated)",
-             "the linearization search uses a 40-line sequential spec in the harness; its answer is validated by the Lean model replaying the order"],
-    assumptions=["Redis: atomicity is claimed per round trip and for quiescent membership/totals of put/delete/graduate operations; expiry concurrent with puts is not claimed (D4, DESIGN §6)"],
+             "the linearization search uses a 40-line sequential spec in the harness; its answer is validated by the Lean model replaying the order",
+             "fact extractor redis_command_groups (go/ast): each of the five announce-path methods of storage/redis/peer_store.go issues ONE atomic membership command group "
+             "(MULTI…EXEC or a single command) first and only INCR/DECR-type commands afterwards — the shape of RedisConc.first; Redis executing MULTI…EXEC atomically is trusted"],
+    assumptions=["Redis: for EVERY interleaving of round trips (theorem Redis_quiescent_sequential) the state at quiescent points is the sequential model's state for the order of the "
+                 "first round trips, results included; reads (two round trips) and the expiry pass are not of that shape: expiry concurrent with puts is not claimed (D4, DESIGN §6)"],
 )
 
 
